@@ -2,7 +2,7 @@
 # usage: tools_verify_seeded.sh <ID> <agent-worktree> <agent-outdir>
 # confirms in a FRESH scratch worktree: patch applies, existing tests pass with it, demo fails with it and passes without
 ID=$1; WT=$2; OUT=$3
-V=/tmp/vs-$ID
+V=/tmp/vs-$ID-$$
 git -C /repo worktree remove --force $V 2>/dev/null
 git -C /repo worktree add --detach $V $(git -C $WT rev-parse HEAD) -q || exit 3
 DEMOS=$(git -C $WT status --short -uall | grep '^??' | awk '{print $2}' | grep -v '^target')
